@@ -317,7 +317,7 @@ func mashalASN1Ciphertext(x1, y1 *big.Int, c2, c3 []byte) ([]byte, error) {
 
 func decryptASN1(priv *PrivateKey, ciphertext []byte) ([]byte, error) {
 	x1, y1, c2, c3, err := unmarshalASN1Ciphertext(ciphertext)
-	if err != nil {
+	if err != nil || !priv.Curve.IsOnCurve(x1, y1) {
 		return nil, ErrDecryption
 	}
 	return rawDecrypt(priv, x1, y1, c2, c3)
@@ -357,7 +357,7 @@ func decryptLegacy(priv *PrivateKey, ciphertext []byte, opts *DecrypterOpts) ([]
 	curve := priv.Curve
 	// B1, get C1, and check C1
 	x1, y1, c3Start, err := bytesToPoint(curve, ciphertext)
-	if err != nil {
+	if err != nil || ciphertextLen < c3Start+sm3.Size {
 		return nil, ErrDecryption
 	}
 
